@@ -336,7 +336,11 @@ impl<'a> GeneratorState<'a> {
     fn generate_deref(&mut self, expr: &Expr, pos: usize) -> Result<ExprType, Error> {
         match expr {
             Expr::Identifier(var, sub) => {
-                let v = self.compiler_state.get_variable(var);
+                // X and Y are registers, not variables
+                let v = match self.compiler_state.variables.get(var) {
+                    Some(v) => v,
+                    None => return Err(self.compiler_state.syntax_error("Deref only works on pointers", pos)),
+                };
                 if v.var_type == VariableType::CharPtr {
                     let sub_output = self.generate_expr(sub, pos, false, false)?;
                     match sub_output {
@@ -383,7 +387,11 @@ impl<'a> GeneratorState<'a> {
     fn generate_addr(&mut self, expr: &Expr, pos: usize) -> Result<ExprType, Error> {
         match expr {
             Expr::Identifier(var, sub) => {
-                let v = self.compiler_state.get_variable(var);
+                // X and Y are registers, not variables
+                let v = match self.compiler_state.variables.get(var) {
+                    Some(v) => v,
+                    None => return Err(self.compiler_state.syntax_error("Address of only works on variables", pos)),
+                };
                 if v.var_type == VariableType::Char {
                     let sub_output = self.generate_expr(sub, pos, false, false)?;
                     match sub_output {
@@ -420,7 +428,11 @@ impl<'a> GeneratorState<'a> {
                 }
             }
             Expr::Identifier(var, _) => {
-                let v = self.compiler_state.get_variable(var);
+                // X and Y are registers, not variables
+                let v = match self.compiler_state.variables.get(var) {
+                    Some(v) => v,
+                    None => return Err(self.compiler_state.syntax_error("Sizeof only works on variables and simple types", pos)),
+                };
                 match v.var_type {
                     VariableType::CharPtr => {
                         if v.var_const {
@@ -504,8 +516,13 @@ impl<'a> GeneratorState<'a> {
                             if let Expr::Integer(8) = *rhs2 {
                                 if let Expr::Identifier(var, sub) = *lhs2 {
                                     if let Expr::Nothing = *sub {
-                                        let v = self.compiler_state.get_variable(var.as_str());
-                                        if v.var_type == VariableType::CharPtr && v.var_const {
+                                        // (X and Y are registers, not variables: no special case for them)
+                                        let const_ptr = self
+                                            .compiler_state
+                                            .variables
+                                            .get(var.as_str())
+                                            .is_some_and(|v| v.var_type == VariableType::CharPtr && v.var_const);
+                                        if const_ptr {
                                             if self.acc_in_use {
                                                 self.sasm(PHA)?;
                                             }
@@ -553,8 +570,13 @@ impl<'a> GeneratorState<'a> {
                             if let Expr::Integer(8) = *rhs2 {
                                 if let Expr::Identifier(var, sub) = *lhs2 {
                                     if let Expr::Nothing = *sub {
-                                        let v = self.compiler_state.get_variable(var.as_str());
-                                        if v.var_type == VariableType::CharPtr && v.var_const {
+                                        // (X and Y are registers, not variables: no special case for them)
+                                        let const_ptr = self
+                                            .compiler_state
+                                            .variables
+                                            .get(var.as_str())
+                                            .is_some_and(|v| v.var_type == VariableType::CharPtr && v.var_const);
+                                        if const_ptr {
                                             if self.acc_in_use {
                                                 self.sasm(PHA)?;
                                             }
